@@ -32,6 +32,30 @@ CLAIMED = {
             "every (cell incl. degenerate, pbc mask, 1-3 atoms, extension x cutoff in both orders) builds the real extended system / cell list, which is compared row by row and query by query (grid of query points) with a brute-force image set; get_matches/get_matches_simple compared on the same points",
             "atoms inside the cell; images beyond the extension are optional; matching judged only where the nearest image is one the cell list must contain; ext.cpp bindings not compiled (py::array_t stand-in)",
             "DESIGN.md §4 C16"),
+    "C05": ("exhaustive root enumeration over (space group, Wyckoff letters) + presentation BFS (depth 1) on the real SymmetryAnalyzer vs independent spglib / lattice-automorphism congruence search",
+            "one crystal per listed (group, occupied letters, anchor) is analysed in every presentation; the returned conventional cell is re-analysed independently, compared with the standardized lattice, and matched to the standardized input atoms by an exhaustive search over the <=48 metric-preserving integer matrices x all same-species translations, distinguishing proper from improper maps",
+            "bounded family (<=2 occupied positions, atom cap, two species + anchor species, tol 0.01, listed generators); trusts spglib as the independent symmetry search",
+            "DESIGN.md §4 C05"),
+    "C06": ("presentation BFS (depth 1) with differential oracle root-vs-state on the real SymmetryAnalyzer",
+            "the normal-form tuple of every reached presentation is compared with the root's; parameter-free roots in metrically fixed systems additionally compare the conventional cell and position set",
+            "same bounded family as C05; rotations/translations/permutations/basis changes/supercells from the listed generator set only",
+            "DESIGN.md §4 C06"),
+    "C07": ("exhaustive root enumeration + presentation BFS; every Wyckoff set compared with the orbit under independently obtained operations",
+            "in every reached state the sets must partition the conventional cell, agree with per-atom letters/classes, equal the orbit of their first atom under spglib's operations of the returned cell and under the Hall-database operations, and sit on the tabulated position of their letter",
+            "same bounded family as C05; letter check by position relies on the Wyckoff tables verified by C14",
+            "DESIGN.md §4 C07"),
+    "C08": ("complete enumeration of all (space group, Wyckoff letter) pairs x presentations on the real parameter solver",
+            "every one of the 1731 positions is occupied at a generic parameter row (anchored), analysed in every presentation, and the reported parameters are substituted back into the representative expression (parsed independently)",
+            "generic parameter rows from a vetted table; crystals above the atom cap are listed as skipped",
+            "DESIGN.md §4 C08"),
+    "C12": ("exhaustive root enumeration + presentation BFS; consistency identities between the three descriptions",
+            "in every reached state the original/primitive/conventional letters and classes are compared by exact counting identities; the primitive system is re-analysed independently (find_primitive, space group, volume per atom, centring ratio)",
+            "same bounded family as C05; all seven centring types occur among the 230 groups",
+            "DESIGN.md §4 C12"),
+    "C15": ("exhaustive root enumeration over all 230 groups + presentation BFS on the real get_is_chiral",
+            "for every (group, letter) crystal with and without anchor the flag must equal 'all Hall-database operations proper' in every presentation (supercells, shears, rotations, permutations)",
+            "same bounded family as C05",
+            "DESIGN.md §4 C15"),
 }
 NA_REASON = "check not built yet in this round; see DESIGN.md §7 order of work"
 
